@@ -420,7 +420,18 @@ func variants(r *vk.Run, depth int) []variant {
 		{Name: "bolt/prune-gc-pool", Backend: "bolt", Cfg: prune, GC: true, Pool: true, Flush: all, Restart: alt},
 		{Name: "level/latest", Backend: "level", Cfg: latest, Flush: alt, Restart: all},
 	}
-	if thorough {
+	if thorough && depth > 3 {
+		// long fixed histories (plan F): the full subset product is 4^(depth+1) - for these
+		// every single boundary gets its own flush / restart / flush-all+restart variant
+		for i := 0; i <= depth; i++ {
+			bit := uint(1) << uint(i)
+			vs = append(vs, variant{Name: fmt.Sprintf("mem/f@%d", i), Backend: "mem", Flush: bit})
+			vs = append(vs, variant{Name: fmt.Sprintf("mem/r@%d", i), Backend: "mem", Restart: bit})
+			vs = append(vs, variant{Name: fmt.Sprintf("mem/fall-r@%d", i), Backend: "mem", Flush: all, Restart: bit})
+			vs = append(vs, variant{Name: fmt.Sprintf("bolt/prune-fall-r@%d", i), Backend: "bolt", Cfg: prune, GC: true, Flush: all, Restart: bit})
+		}
+	}
+	if thorough && depth <= 3 {
 		// every flush subset x every restart subset on memory, all flush subsets on disk
 		for f := uint(0); f <= all; f++ {
 			for rs := uint(0); rs <= all; rs++ {
